@@ -75,6 +75,12 @@ def replay_sht(data):
         if not np.allclose(got, c, rtol=0, atol=1e-10):
             k = int(np.argmax(np.abs(got - c)))
             bad.append("L=%d: complex analysis of sum c_lm Y_lm does not return c (worst index %d: %.4g vs %.4g)" % (L, k, abs(got[k]), abs(c[k])))
+        held = got.copy()
+        sht.analysis(f * 0.5 + 1.0)
+        sht.analysis((f * 0.5 + 1.0).real)
+        if not np.array_equal(got, held):
+            bad.append("L=%d: coefficients returned by analysis change when the same SHT object analyses another function" % L)
+        got = held
         if not np.allclose(sht.analysis_pure_python_cplx(f), got, rtol=0, atol=1e-11):
             bad.append("L=%d: compiled complex analysis != pure-python reference" % L)
         if not np.allclose(sht.synthesis(c), f, rtol=0, atol=1e-10):
@@ -215,6 +221,12 @@ def part_grid(ctx, thorough):
                "holds" if not bad else "counterexample", seconds=time.time() - t0, nontrivial=True, method="enumeration")
     if bad:
         ctx.violation("sht:grid", "grid-size rule gives nphi < 2L+1 for L=%s" % bad[:3], {"L": bad[:2]}, replay_sht)
+
+
+def dependency_sections():
+    """section other properties run because they rest on it: descriptors computed from sampled functions are rotation invariant
+    only if the quadrature grid is exact for the degree (the violations keep C07's replay function)"""
+    return [("dependency: SHT grid exact for the degree (C07 grid rule)", lambda c: part_grid(c, c.tier == "thorough"))]
 
 
 def _exact_runtime():
@@ -595,19 +607,34 @@ def part_roundtrip(ctx, thorough):
             ex = Explorer()
 
             def rt():
+                for nm_, v_ in list(vars(sht).items()):
+                    # every complex work array of the object holds symbolic values
+                    if isinstance(v_, np.ndarray) and v_.dtype.kind == "c":
+                        setattr(sht, nm_, v_.astype(object))
                 sht.fft_work_array = np.array([SymC(0, 0) for _ in range(sht.nphi)], dtype=object)
                 sht.plm_work_array = np.empty(sht.nplm(), dtype=object)
                 f = sht.synthesis(c)
                 sht.fft_work_array = np.array([SymC(0, 0) for _ in range(sht.nphi)], dtype=object)
                 back = sht.analysis(f)
-                return f, back
+                held = [back[i] for i in range(len(back))]
+                # the same transform object analyses another function (the zero function): the coefficients handed out before are
+                # those of f and stay so
+                sht.fft_work_array = np.array([SymC(0, 0) for _ in range(sht.nphi)], dtype=object)
+                zero = np.array([[(SymC(0, 0) if kind == "cplx" else 0) for _ in range(f.shape[1])] for _ in range(f.shape[0])], dtype=object)
+                sht.analysis(zero)
+                kept = all(back[i] is held[i] for i in range(len(held)))
+                return f, held, kept
             t0 = time.time()
             pth = ex.run(rt)
             ctx.add_paths(ex)
             if len(pth) != 1 or pth[0].exc is not None:
                 ctx.mark_inconclusive("roundtrip L=%d %s" % (L, kind), "not executable symbolically: %r" % (pth[0].exc if pth else None))
                 continue
-            f, back = pth[0].value
+            f, back, kept = pth[0].value
+            ctx.record("roundtrip L=%d %s: coefficients returned by analysis are untouched by a later analysis on the same object" % (L, kind),
+                       "holds" if kept else "counterexample", nontrivial=True)
+            if not kept:
+                ctx.violation("sht:held", "L=%d: coefficients returned by SHT.analysis are overwritten by the next analysis on the same object" % L, {"L": [L, 3]}, replay_sht)
             box = []
             for v in c:
                 for comp in (v.re, v.im):
